@@ -389,6 +389,34 @@ func checkSTLOrdering(ctx *Ctx, r *Report, writers map[string]*ssa.Function) {
 		}
 		s := strings.Join(seq, " ")
 		r.check("S5", "writeSTL|flush-seek-header-order", fn.Pos(), s == "tri flush seek0 hdr", "event order: "+s+" (expected: tri flush seek0 hdr)")
+		// the end-of-stream sequence is unconditional except for I/O failures: a data dependent
+		// shortcut (e.g. "nothing written, nothing to flush") leaves the buffered header unwritten
+		okUncond := true
+		ucDetail := ""
+		for _, e := range ev.Events {
+			isEnd := strings.HasSuffix(e.Callee, ".Flush") || strings.HasSuffix(e.Callee, ".Seek")
+			if strings.HasSuffix(e.Callee, "encoding/binary.Write") {
+				if snap, _ := e.Args[2].(*Tuple); snap != nil {
+					pv := snap.Elems[1]
+					if sy, ok := pv.(*Sym); ok {
+						pv = materialise(sy)
+					}
+					if _, ok := fieldOf(pv, "Count"); ok {
+						isEnd = true
+					}
+				}
+			}
+			if !isEnd {
+				continue
+			}
+			for _, c := range conjuncts(e.Cond) {
+				if !isErrorGuard(c) {
+					okUncond = false
+					ucDetail += fmt.Sprintf(" %s only when %s;", e.Callee[strings.LastIndex(e.Callee, ".")+1:], shortKey(c.Key(), 100))
+				}
+			}
+		}
+		r.check("S5", "writeSTL|flush-and-header-on-every-successful-path", fn.Pos(), okUncond, "Flush, Seek and the header rewrite depend on nothing but earlier I/O errors;"+ucDetail)
 		// the counter: a recurrence with step +1 whose increment is gated by a successful write
 		okCnt := false
 		detail := ""
@@ -430,6 +458,39 @@ func checkSTLOrdering(ctx *Ctx, r *Report, writers map[string]*ssa.Function) {
 		r.check("S5", "writeSTL|count-only-successful-writes", fn.Pos(), incGuarded, "the counter is incremented on the err == nil branch of the record write")
 	}
 	r.floor("S5", 5)
+}
+
+// isErrorGuard: the condition only tests error values (the nil-ness of an I/O result or of the
+// goroutine's sticky error variable).
+func isErrorGuard(c *Term) bool {
+	ok := true
+	n := 0
+	var walk func(t *Term)
+	walk = func(t *Term) {
+		switch t.Op {
+		case "not", "ite":
+			for _, a := range t.Args {
+				walk(a)
+			}
+		case "c":
+		case "cmp":
+			n++
+			k := t.Key()
+			if t.S != "==" || !(strings.Contains(k, "nil") || strings.Contains(k, "error:") || strings.Contains(k, "err")) {
+				ok = false
+			}
+		case "a":
+			n++
+			if !strings.HasPrefix(t.S, "recvok(") { // the stream is exhausted: the way out of the receive loop
+				ok = false
+			}
+		default:
+			n++
+			ok = false
+		}
+	}
+	walk(c)
+	return ok && n > 0
 }
 
 // checkNormal: S6.
